@@ -17,7 +17,7 @@ M = [
  ("dec_emit_3_fields", "src/decoder.rs", "          1 => return Some(mapping),", "          1 | 3 => return Some(mapping),", {"C12": "V"}),
  ("dec_table_typo", "src/decoder.rs", "    52,  53,  54,  55,  56,  57,  58,  59,  60,  61, ERR, SEM,", "    52,  53,  54,  55,  56,  57,  58,  59,  61,  60, ERR, SEM,", {"C12": "V"}),
  ("dec_guard_removed", "src/decoder.rs", "        if self.current_value_pos < 64 {\n          self.current_value |= (value as i64) << self.current_value_pos;\n        }", "        self.current_value |= (value as i64) << self.current_value_pos;", {"C17": "V"}),
- ("dec_line_wrap", "src/decoder.rs", "          self.generated_line += 1;", "          self.generated_line += 2;", {"C12": "V", "C17": "V"}),
+ ("dec_line_wrap", "src/decoder.rs", "          self.generated_line += 1;", "          self.generated_line += 2;", {"C12": "V", "C17": "P2"}),  # C17: the proof fails (line counter may overflow) but a witness needs a 2 GiB string -> undecided
  # ---- breaking: ReplaceSource::source ----
  ("rs_max_removed", "src/replace_source.rs", "        inner_pos = inner_pos\n          .max(replacement.end)\n          .min(inner_source_code.len() as u32);\n      }\n    }\n    source_code.push_str(",
   "        inner_pos = replacement.end\n          .min(inner_source_code.len() as u32);\n      }\n    }\n    source_code.push_str(", {"C05": "V"}),
@@ -35,6 +35,8 @@ M = [
  ("rope_max_removed", "src/replace_source.rs", "        inner_pos = inner_pos\n          .max(replacement.end)\n          .min(inner_source_code.len() as u32);\n      }\n    }\n    let slice =", "        inner_pos = replacement.end\n          .min(inner_source_code.len() as u32);\n      }\n    }\n    let slice =", {"C05": "V"}),
  ("tokens_stop_at_continuation", "src/helpers.rs", "      while c != '\\n' && c != ';' && c != '{' && c != '}' {", "      while c != '\\n' && c != ';' && c != '{' && c != '}' && c != '\\u{a9}' {", {"C17": "V"}),
  ("tokens_newline_kept_out", "src/helpers.rs", "      if c == '\\n' {\n        self.index += 1;\n      }\n", "", {"C17": "V"}),
+ ("sms_eq_ignores_flag", "src/source_map_source.rs", "      && self.remove_original_source == other.remove_original_source\n", "", {"C14": "V"}),
+ ("sms_hash_includes_name", "src/source_map_source.rs", "    self.remove_original_source.hash(state);\n", "    self.remove_original_source.hash(state);\n    self.name.len().hash(state);\n", {"C14": "P2"}),
  # ---- benign ----
  ("benign_rename_local", "src/encoder.rs", "let mut digit = num & 0b11111;\n    num >>= 5;\n    if num > 0 {\n      digit |= 1 << 5;\n    }\n    out.push(B64_CHARS[digit as usize]);",
   "let mut dg = num & 0b11111;\n    num >>= 5;\n    if num > 0 {\n      dg |= 1 << 5;\n    }\n    out.push(B64_CHARS[dg as usize]);", {"C12": "P", "C17": "P"}),
